@@ -831,7 +831,7 @@ def multi_buf(n1: int, n2: int, n3: int) -> bool:
 HARNESSES = [
     H(r2os, shards=[("start is None",), ("start is not None", "end is None"),
                     ("start is not None", "end is not None")], timeout={"quick": 60, "thorough": 300}),
-    H(parse, shards=_parse_shards, timeout={"quick": 90, "thorough": 900},
+    H(parse, shards=_parse_shards, timeout={"quick": 200, "thorough": 900},
       note="a, bb, c, d are ASCII digit strings and junk is one latin-1 character (constraints added per shard)"),
     H(single, shards=lambda tier: [("vi == %d" % v, "sizei == %d" % s) for v in range(BOUNDS[tier]["vals"] + 1)
                                    for s in range(len(_SIZES[v]))], timeout={"quick": 60, "thorough": 300}),
